@@ -263,6 +263,16 @@ func (s *Server) handleConnection(conn net.Conn) {
 			log.Printf("Unknown SASL command: %s", command)
 		}
 
+		// Once Shutdown has begun, a connection is closed after the command in
+		// progress: Shutdown waits for every connection, and a client that keeps
+		// sending requests must not be able to keep it waiting for ever
+		select {
+		case <-s.shutdown:
+			log.Printf("SASL server is shutting down, closing connection")
+			return
+		default:
+		}
+
 		// Reset read deadline for next command
 		_ = conn.SetReadDeadline(time.Now().Add(30 * time.Second))
 	}
